@@ -17,6 +17,11 @@ def first_id(c):
     m = re.search(r"OStarted (\d+)", c["obs"]) or re.search(r"LStarted (\d+)", c["obs"])
     return m.group(1) if m else "0"
 
+def norm_ins(c):
+    """input sequence with raw timer ids replaced by their offset from the case's first id"""
+    c0 = int(first_id(c))
+    return re.sub(r"\b(\d+)\b(?!%nat)", lambda m: "#%d" % (int(m.group(1)) - c0), c["ins"])
+
 def case_text(host, cases):
     fn = HOSTS[host][1]
     t = ["From Coq Require Import List NArith Bool. Import ListNotations.",
@@ -49,9 +54,15 @@ def check_C18(run, replay=None):
             "timer_legacy": "%d 6 4 300 300" if quick else "%d 7 5 10000 10000"}
     have = [h for h in HOSTS if os.path.exists(os.path.join(C.ROOT, "harness", "src", "bin", HOSTS[h][0] + ".rs"))]
     all_cases = [c for c in corpus_cases() if c.get("host") in have]
+    want = None
     if replay:
-        all_cases = json.load(open(replay)).get("cases", [])
-    else:
+        # re-execute: the generators are deterministic, so the recorded input sequences are regenerated
+        # and run again on the real code; only if none reappears are the recorded observations re-judged
+        rp = json.load(open(replay))
+        recorded = rp.get("cases", [])
+        want = {(c["host"], norm_ins(c)) for c in recorded}
+        all_cases = []
+    if True:
         for rel in profiles:
             bins_needed = [HOSTS[h][0] for h in have]
             ok, log, bins = C.harness_build(bins_needed, release=rel)
@@ -66,6 +77,10 @@ def check_C18(run, replay=None):
                     run.oblige("harness-run %s" % b, False, out[-1500:]); continue
                 for c in cases: c["profile"] = "release" if rel else "dev"
                 all_cases += cases
+    if want is not None:
+        rerun = [c for c in all_cases if (c["host"], norm_ins(c)) in want]
+        run.oblige("replay: %d of %d recorded input sequences re-executed on the real code" % (len({(c["host"], norm_ins(c)) for c in rerun}), len(want)), True, "")
+        all_cases = rerun if rerun else recorded
     by_host = collections.defaultdict(list)
     for c in all_cases: by_host[c["host"]].append(c)
     texts, shards = [], []
@@ -97,6 +112,19 @@ def check_C18(run, replay=None):
     run.oblige("C18_ok holds on every implementation trace outside known classes", not fail, json.dumps(fail[:3])[:1500])
     if fail:
         fail.sort(key=shrink_key)
+        fail = fail[:20]
+        # shrink: length of the shortest rejected prefix of each failing case (C18_ok is prefix-closed)
+        try:
+            groups = collections.defaultdict(list)
+            for c in fail: groups[c["host"]].append(c)
+            hs = sorted(groups)
+            txt = [case_text(h, groups[h]).replace("(%s cs)" % HOSTS[h][1], "(%s cs)" % ("shortest_fails_legacy" if h == "legacy" else "shortest_fails")) for h in hs]
+            for h, (ok, vals, raw) in zip(hs, C.run_case_files("C18_shrink", txt)):
+                if ok and len(vals) == 1 and len(vals[0]) == len(groups[h]):
+                    for c, n in zip(groups[h], vals[0]): c["first_rejected_step"] = n
+        except Exception as ex:
+            run.extra["shrink_error"] = str(ex)[:200]
+        fail.sort(key=lambda c: (c.get("first_rejected_step", 10**6), shrink_key(c)))
         run.violation("C18_ok", {"property": "C18", "what": "the outcome automaton rejects the implementation's observations (shortest failing sequences first)",
                                  "cases": fail[:20],
                                  "how_to_replay": "./check C18 --replay <this file>; ins/obs are Coq terms of coq/Timer/Machine.v (list sin / list obs), produced by harness/src/bin/timer_*.rs"})
